@@ -260,6 +260,21 @@ def handle (d : D) (line : String) : IO D := do
         if d.snapBad < 20 then IO.println s!"DISAGREE {d.c.hdr} select#{d.c.nsnap} model timeout={mt} rfds={mrf} wfds={mwf} impl: {" ".intercalate rest}"
         d := { d with snapBad := d.snapBad + 1, st := { d.st with disagree := d.st.disagree + 1 } }
       let qd := parseQueued rest
+      -- the timeval's microsecond half (qsim's select writes the remaining time back like Linux): SelPrep passes whole seconds
+      let usec : Int := ((kvOf rest "tusec").toInt?).getD 0
+      if usec != 0 then
+        if d.snapBad < 20 then IO.println s!"DISAGREE {d.c.hdr} select#{d.c.nsnap} the timeval passed to select is ({tmo},{usec}): the model's timeout is whole seconds ({mt},0): {" ".intercalate rest}"
+        d := { d with snapBad := d.snapBad + 1, st := { d.st with disagree := d.st.disagree + 1 } }
+      -- the simulator's clock at select entry against the program's `recent` (what the timeout was computed from)
+      let simnow : Int := ((kvOf rest "simnow").toInt?).getD s.recent
+      if simnow != s.recent then
+        if d.snapBad < 20 then IO.println s!"DISAGREE {d.c.hdr} select#{d.c.nsnap} select is entered at clock {simnow} but the program's recent is {s.recent} (the model reads the clock at the top of every iteration): {" ".intercalate rest}"
+        d := { d with snapBad := d.snapBad + 1, st := { d.st with disagree := d.st.disagree + 1 } }
+      -- the oracles judge the timeout that was really requested (a fraction of a second counts as a sleep) at the time it really is
+      let s := { s with recent := simnow }
+      let tmoReal := tmo
+      let tmo := if usec > 0 then tmo + 1 else tmo
+      let note := (if usec != 0 then s!"[timeval=({tmoReal},{usec})]" else "") ++ (if simnow != (((kvOf rest "recent").toInt?).getD simnow) then s!"[clock={simnow},the_program's_recent={kvOf rest "recent"}]" else "")
       -- premise of C16_never_past_any_queued on the implementation's arrays: every root the loop read is a minimum
       match qd with
       | some q =>
@@ -273,9 +288,21 @@ def handle (d : D) (line : String) : IO D := do
         | none => qd.bind (fun q => queuedOracle s q tmo)
       match verdict with
       | some why =>
-        if d.st.oracle < 20 then IO.println s!"ORACLE {d.c.hdr} select#{d.c.nsnap} why={why} snap: {" ".intercalate rest}"
+        if d.st.oracle < 20 then IO.println s!"ORACLE {d.c.hdr} select#{d.c.nsnap} why={why}{note} snap: {" ".intercalate rest}"
         d := { d with st := { d.st with oracle := d.st.oracle + 1 } }
       | none => pure ()
+      -- daemon scenarios (every entry of todo/ is a COMPLETED injection there: arrivals are atomic): the daemon must not go to sleep
+      -- while one is unprocessed unless the trigger is readable (C16_no_lost_wakeup / C16_progress / C16_first_scan_unconditional);
+      -- skipped once exit was requested (a draining daemon ignores todo) and for scenarios with an injected system-call fault
+      if d.selOnly then
+        match (kvOf rest "todo").toNat? with
+        | some ntodo =>
+          if ntodo > 0 then d := { d with st := d.st.bump "snap_with_todo_entries" }
+          let faulty := (d.c.hdr.splitOn "fault=").length > 1
+          if ntodo > 0 && tmo > 0 && kvOf rest "tready" != "1" && !s.exitasap && !faulty then
+            if d.st.oracle < 20 then IO.println s!"ORACLE {d.c.hdr} select#{d.c.nsnap} why=sleeps_with_{ntodo}_completed_injection(s)_in_todo_unprocessed_and_the_trigger_not_readable{note} snap: {" ".intercalate rest}"
+            d := { d with st := { d.st with oracle := d.st.oracle + 1 } }
+        | none => pure ()
       -- the todo_do guard of `bodyActs` on the implementation (C16_early_return_acts for the FIFO): the previous select was
       -- bound to report the FIFO readable, no scan was open and exit was not requested => a scan has been started by now
       -- (skipped for scenarios with an injected system-call fault: a failing opendir legitimately postpones the scan)
@@ -300,14 +327,21 @@ def handle (d : D) (line : String) : IO D := do
             if tready != ts.buf then
               IO.println s!"DISAGREE {d.c.hdr} select#{d.c.nsnap} after event#{d.c.nev}: the trigger FIFO is {if tready then "readable" else "not readable"} in the run but Trigger.St.buf = {ts.buf}"
               d := { d with st := { d.st with disagree := d.st.disagree + 1 } }
-          if ts.d == .idle then
-            match ts.todo.find? (fun n => pulled (ts.pc n)) with
-            | some n =>
+          match ts.todo.find? (fun n => pulled (ts.pc n)) with
+          | some n =>
+            if ts.d == .idle then
               d := { d with st := d.st.bump "snap_idle_with_completed_injection_unprocessed" }
               if !tready then
                 IO.println s!"ORACLE {d.c.hdr} select#{d.c.nsnap} after event#{d.c.nev} why=lost_wakeup:daemon_outside_a_scan,_injection_{n}_completed_and_unprocessed,_trigger_not_readable(C16_no_lost_wakeup)"
                 d := { d with st := { d.st with oracle := d.st.oracle + 1 } }
-            | none => pure ()
+            else
+              -- C16_progress on the implementation: in every other state (start-up: FIFO opened, first scan not begun; re-arm; scan in
+              -- progress) the daemon's next step is its own - it must not ask select to sleep
+              d := { d with st := d.st.bump "snap_startup_or_scan_with_completed_injection_unprocessed" }
+              if !tready && tmo > 0 then
+                IO.println s!"ORACLE {d.c.hdr} select#{d.c.nsnap} after event#{d.c.nev} why=lost_wakeup:daemon_sleeps_(timeout_{tmo})_before_its_first_scan_or_inside_one,_injection_{n}_completed_and_unprocessed,_trigger_not_readable(C16_progress)"
+                d := { d with st := { d.st with oracle := d.st.oracle + 1 } }
+          | none => pure ()
         | none => pure ()
       return d
   | "X" :: "start" :: _ => return { d with c := { d.c with prev := none } }      -- a new incarnation of the daemon
